@@ -217,7 +217,11 @@ def track_of(src: dict) -> Track:
 
 def gen_track_kw(rng, kind: str, nseg: int) -> dict:
     enc = rng.random() < .6
-    base = rng.choice(["moof", "moof", "explicit", "implicit"] + ([] if enc else ["explicit-mdat"]))
+    # 'absolute' / 'absolute-lead': explicit base in FRONT of the moof (0 = start of file, or the
+    # segment's first leading box) with offsets relative to it: the stored data_offset / saio offset
+    # is stale after the base reset and may land before, inside or behind the served mdat
+    base = rng.choice(["moof", "moof", "explicit", "implicit", "absolute", "absolute", "absolute-lead"]
+                      + ([] if enc else ["explicit-mdat"]))
     lead = rng.choice([(False, False, 0), (True, True, 0), (True, True, 1), (False, True, 0), (True, False, 2),
                        (False, False, 1), (True, True, 3)])
     ts = rng.choice([240, 600, 1000, 90000]) if kind == "video" else rng.choice([44100, 48000])
@@ -230,7 +234,7 @@ def gen_track_kw(rng, kind: str, nseg: int) -> dict:
               emsg_first=rng.random() < .3, emsg_version=rng.choice([0, 1]),
               encrypted=enc, iv_size=rng.choice([8, 16]), base=base,
               track_id=1 if kind == "video" else 2, start_number=rng.choice([1, 1, 1, 0, 7]),
-              payload_size=rng.choice([20, 60, 300]), seed=rng.randrange(1 << 30),
+              payload_size=rng.choice([20, 60, 300, 900, 2500]), seed=rng.randrange(1 << 30),
               traf_order=rng.choice(["trun_first", "senc_first"]),
               sample_durations_in=rng.choice(["trun", "trun", "tfhd", "trex"]),
               trun_cto=rng.random() < .2, extra_traf_box=rng.random() < .3,
@@ -247,6 +251,30 @@ def gen_stream_spec(rng) -> dict:
     nseg = rng.choice([2, 3, 4])
     return {"video": gen_track_kw(rng, "video", nseg), "audio": gen_track_kw(rng, "audio", nseg),
             "aligned": rng.random() < .35}
+
+
+def fixed_specs() -> list[dict]:
+    """streams that every run covers regardless of the seed: absolute-file-offset addressing
+    (base 0 / base at the leading box) x clear/encrypted x small/large samples (stale stored
+    offset outside / inside the served mdat) x both index variants"""
+    out = []
+    i = 0
+    for base in ("absolute", "absolute-lead"):
+        for enc in (False, True):
+            for psize in (40, 1500):
+                for aligned in (False, True):
+                    i += 1
+                    common_kw = dict(base=base, encrypted=enc, payload_size=psize, with_styp=True, with_sidx=True,
+                                     with_emsg=i % 2, with_tfdt=(i % 3 != 0), seed=7000 + i)
+                    if enc:
+                        common_kw.update(iv_size=8 if i % 2 else 16, subsamples=True,
+                                         traf_order="senc_first" if i % 4 < 2 else "trun_first")
+                    out.append({"video": dict(common_kw, timescale=240, durations=[960, 960, 1000, 900],
+                                              samples_per_segment=[4, 6, 3, 5]),
+                                "audio": dict(common_kw, timescale=48000, durations=[96000] * 4,
+                                              samples_per_segment=[5, 5, 5, 5], track_id=2),
+                                "aligned": aligned})
+    return out
 
 
 DRM_SETS = ["all", "playready", "clearkey", "marlin", "playready,clearkey", "marlin,playready",
@@ -619,7 +647,16 @@ def channels(ctx):
                                                                events="ping", ping__interval="50")):
                 cases.append({"src": t.spec, "mode": "vod", "addr": "number", "url": vod_url(t, k, ov, "number"),
                               "now": "2024-02-03T04:05:06Z", "ov": ov})
-    cases += gen_cases(rng, tracks, ctx.scale(3000, 36000))
+    for spec in fixed_specs():
+        for t in synth_stream(spec):
+            for k in range(1, t.nseg + 1):
+                for ov in ([{"drm": "all"}, {"drm": "clearkey", "bugs": "saio"}] if t.enc else
+                           [{}, {"events": "ping", "ping__interval": "50"}]):
+                    if "events" in ov and t.kind != "video":
+                        continue
+                    cases.append({"src": t.spec, "mode": "vod", "addr": "number", "url": vod_url(t, k, ov, "number"),
+                                  "now": "2024-02-03T04:05:06Z", "ov": ov})
+    cases += gen_cases(rng, tracks, ctx.scale(2700, 36000))
     evaluate(cases, ch)
     yield ch
 
